@@ -154,8 +154,20 @@ func Verif_C10_remove() {
 	}
 	a += b
 	env.w.removeTask("a")
-	again := verifChoose("setAgain", 2) == 1
+	nAfter := 2
+	if verifParam("resched") == 0 {
+		nAfter = 3 // H10c: the removed key may also be MOVED afterwards
+	}
+	after := verifChoose("setAgain", nAfter)
+	again := after == 1
 	steps2 := 0
+	if after == 2 {
+		// moving a key that was removed is moving a key that is not there: nothing is
+		// scheduled, whether or not the wheel has ticked past the slot of the removed entry
+		dm, _ := verifDelay("d2", n, I)
+		env.w.moveTask(baseEntry{delay: dm, key: "a"})
+		verifReach("removed-then-moved")
+	}
 	if again {
 		var d2 time.Duration
 		d2, steps2 = verifDelay("d2", n, I)
